@@ -82,7 +82,7 @@ func Run(c *vf.Check) {
 		kind := kind
 		jobs = append(jobs, func() { runCross(c, []string{"kilic." + kind, "circl." + kind, "gnark." + kind}, lvl, true) })
 	}
-	jobs = append(jobs, func() { runPairBLS(c) }, func() { runStdlib(c) }, func() { runClampedKeys(c) }, func() { runPickSmallOrder(c) }, func() { runCustomDSTHash(c) })
+	jobs = append(jobs, func() { runPairBLS(c) }, func() { runStdlib(c) }, func() { runClampedKeys(c) }, func() { runPickSmallOrder(c) }, func() { runCustomDSTHash(c) }, func() { runModIntEndian(c) })
 	for _, v := range []string{"generic", "constantTime"} {
 		v := v
 		jobs = append(jobs, func() { runVariant(c, v) })
@@ -432,6 +432,9 @@ func Transcript(path string) error {
 			}
 			fmt.Fprintf(w, "%s|coordinates encoded as v+p, k in [%d,%d)|%x\n", e.name, blk, blk+100, h.Sum(nil)[:16])
 		}
+	}
+	for _, l := range modIntEndianLines() {
+		fmt.Fprintf(w, "mod.Int|%s|%x\n", l.name, l.enc)
 	}
 	for _, ps := range groups.PairingSuites() {
 		l, err := pairLines(ps)
